@@ -278,6 +278,8 @@ func (r *Report) writeEvidence() {
 				assume["callee without contract havocked by static footprint: "+strings.TrimPrefix(l, "havoc:")] = true
 			case strings.HasPrefix(l, "invoke:"):
 				assume["interface call havocked: "+strings.TrimPrefix(l, "invoke:")] = true
+			case strings.HasPrefix(l, "assume-recv:"):
+				assume["channel protocol fact assumed at a receive (proved at the senders): "+strings.TrimPrefix(l, "assume-recv:")] = true
 			case strings.HasPrefix(l, "assume-after:"):
 				assume["assumption of the caller about a call's result: "+strings.TrimPrefix(l, "assume-after:")] = true
 			case strings.HasPrefix(l, "stable-across:"):
